@@ -9,9 +9,11 @@
                    the blocking peers, the sleep, the self-touch;
   * `kaSleep(T)` = the keep-alive period `max(1, min(L, max(1, L − randint(5,10))))`, `L/2` for `L = 1`;
   * `touchVal`   = what `touch()` writes (`None` when the record would be dead at once: lifetime ≤ 0);
-  * `step`       = the shared peering object + operators as a labelled transition system. `deliver i` hands
-                   operator i the CURRENT status at the current time (no stale views, clean+toggle atomic): what
-                   late deliveries and same-identity restarts do to the real code is outside it (findings F4, F5).
+  * `step`       = the shared peering object + operators as a labelled transition system. `deliver i` hands operator i
+                   the CURRENT status (an idealisation: the code always sees a somewhat older one), `deliverStale i view` an
+                   older view whose `clean()` lands on the current status (findings F4, F5); `exit` is the proper order of a
+                   graceful stop, `exitBegin`/`exitEnd` the order the code has (withdrawal first, handling stops last: F7),
+                   `exitLost` a withdrawal the API refused.
 
   Time: `Tick = Int`; `u` = ticks per second (the harness uses 64); lifetimes are whole seconds.
 -/
@@ -267,6 +269,10 @@ def Status.peers (st : Status) : List Peer := st.map (fun e => e.2.toPeer e.1)
 /-- merge-patch `{status: {j: None for j in ids}}` -/
 def Status.eraseAll (st : Status) (ids : List Identity) : Status := st.filter (fun e => !ids.contains e.1)
 
+/-- blocking over a well-formed status, as a Bool: somebody else's live record of priority ≥ `p` is in `st` at clock `t`. -/
+def blockedB (u : Int) (st : Status) (i : Identity) (p : Int) (t : Int) : Bool :=
+  st.any (fun e => e.1 != i && !e.2.dead u t && decide (e.2.priority ≥ p))
+
 /-! ### Operators and the transition system -/
 
 structure Op where
@@ -277,6 +283,7 @@ structure Op where
   seen : Option (Nat × Int)   -- version of the status last processed AS THE CURRENT ONE, and when (`none` after a stale view)
   sleeping : Bool := false    -- a `process_peering_event` call sleeps towards a deadline and will self-touch on waking
   nextKA : Option Int := none -- ghost: the latest moment the pinger starts its next `touch()` (last landing + longest sleep)
+  exiting : Bool := false     -- asked to stop: pinger and peering observer are gone, the resource watchers still deplete
   deriving Repr, DecidableEq
 
 structure State where
@@ -290,6 +297,9 @@ inductive Label where
   | keepalive (i : Identity) (lag : Nat)         -- the pinger's `touch()` lands; the record was stamped `lag` ticks ago
   | exit (i : Identity)                          -- graceful: `touch(lifetime=0)` lands, then gone
   | exitLost (i : Identity)                      -- graceful, but the withdrawal PATCH fails for good (logged and ignored)
+  | exitBegin (i : Identity)                     -- what the code does FIRST on a graceful stop: the withdrawal lands,
+                                                 --   while the operator goes on handling (queues deplete, ≤ exit_timeout)
+  | exitEnd (i : Identity)                       -- ... and LAST: the handling has stopped, the process is gone
   | kill (i : Identity)                          -- the process disappears, its record stays
   | deliver (i : Identity)                       -- operator i processes the CURRENT status; its clean lands at once
   | deliverStale (i : Identity) (view : Status)  -- operator i processes an OLDER view (a late or merely in-flight event)
@@ -308,6 +318,14 @@ def init : State := { now := 0, ver := 0, status := [], ops := fun _ => none }
 def latestDeadline (u : Int) (st : Status) (j : Identity) (now : Int) : Int :=
   (st.filter (fun e => e.1 == j)).foldl (fun m e => max m (e.2.deadline u)) now
 
+/-- An older view that is harmless: judged at the operator's clock it blocks the operator exactly as the current status
+    does, and cleaning by the identities that are dead in the view removes from the current status exactly its dead records
+    of others (nobody renewed, restarted or wrote under those identities in between). -/
+def benignView (u : Int) (s : State) (i : Identity) (prio : Int) (view : Status) : Bool :=
+  (blockedB u view i prio s.now == blockedB u s.status i prio s.now) &&
+  decide (s.status.eraseAll ((deadPeers u s.now i view.peers).map (·.id)) =
+          s.status.filter (fun e => !(e.2.dead u s.now && e.1 != i)))
+
 def step (u : Int) (s : State) : Label → Option State
   | .start i prio lifetime =>
     match s.ops i with
@@ -316,17 +334,18 @@ def step (u : Int) (s : State) : Label → Option State
     | none => some { s with ops := updOp s.ops i { prio, lifetime, alive := true, paused := true, seen := none } }
   | .keepalive i lag =>
     match s.ops i with
-    | some o => if o.alive then
+    | some o => if o.alive && !o.exiting then
         some { s with ver := s.ver + 1, status := s.status.patch i (touchVal u o.prio o.lifetime (s.now - lag)),
                       ops := updOp s.ops i { o with nextKA := some (s.now + (o.lifetime * u - marginT u o.lifetime)) } }
       else none
     | none => none
   | .exit i =>
+    -- the order a graceful stop OUGHT to have (and has with proposals/fix-C13F7): handling stopped, then the withdrawal
     match s.ops i with
-    | some o => if o.alive then
+    | some o => if o.alive && !o.exiting then
         some { s with ver := s.ver + 1, status := s.status.patch i (touchVal u o.prio 0 s.now),
                       -- `_wait_for_depletion` sets the stream pressure: the sleeping call returns without touching
-                      ops := updOp s.ops i { o with alive := false, sleeping := false } }
+                      ops := updOp s.ops i { o with alive := false, sleeping := false, nextKA := none } }
       else none
     | none => none
   | .exitLost i =>
@@ -334,17 +353,31 @@ def step (u : Int) (s : State) : Label → Option State
     match s.ops i with
     | some o => if o.alive then some { s with ops := updOp s.ops i { o with alive := false, sleeping := false } } else none
     | none => none
+  | .exitBegin i =>
+    match s.ops i with
+    | some o => if o.alive && !o.exiting then
+        some { s with ver := s.ver + 1, status := s.status.patch i (touchVal u o.prio 0 s.now),
+                      ops := updOp s.ops i { o with exiting := true, sleeping := false, nextKA := none } }
+      else none
+    | none => none
+  | .exitEnd i =>
+    match s.ops i with
+    | some o => if o.alive && o.exiting then
+        some { s with ops := updOp s.ops i { o with alive := false, exiting := false, sleeping := false } }
+      else none
+    | none => none
   | .kill i =>
     match s.ops i with
     | some o => if o.alive then some { s with ops := updOp s.ops i { o with alive := false, sleeping := false } } else none
     | none => none
   | .deliver i =>
     match s.ops i with
-    | some o => if o.alive then
+    | some o => if o.alive && !o.exiting then
         let d := decideCore u s.status.peers i o.prio true (some o.paused) s.now s.now
+        let st' := s.status.filter (fun e => !(e.2.dead u s.now && e.1 != i))
         some { s with
-          ver := if d.cleaned.isEmpty then s.ver else s.ver + 1
-          status := s.status.filter (fun e => !(e.2.dead u s.now && e.1 != i))
+          ver := if st' = s.status then s.ver else s.ver + 1      -- a patch that changes nothing makes no new version
+          status := st'
           -- a new event interrupts the previous sleep (no touch); this call sleeps iff somebody blocks it
           ops := updOp s.ops i { o with paused := d.paused.getD o.paused, seen := some (s.ver, s.now),
                                         sleeping := d.touch } }
@@ -354,12 +387,15 @@ def step (u : Int) (s : State) : Label → Option State
     -- the verdict (who is dead, who blocks) is computed from `view` against the operator's OWN clock; `clean()` is an
     -- unconditional merge-patch `{identity: None}`: it removes whatever the CURRENT status holds under those identities
     match s.ops i with
-    | some o => if o.alive then
+    | some o => if o.alive && !o.exiting then
         let d := decideCore u view.peers i o.prio true (some o.paused) s.now s.now
+        let st' := s.status.eraseAll d.cleaned
         some { s with
-          ver := if d.cleaned.isEmpty then s.ver else s.ver + 1
-          status := s.status.eraseAll d.cleaned
-          ops := updOp s.ops i { o with paused := d.paused.getD o.paused, seen := none, sleeping := d.touch } }
+          ver := if st' = s.status then s.ver else s.ver + 1
+          status := st'
+          -- the view is as good as the current status when it yields the same verdict and the same cleaning
+          ops := updOp s.ops i { o with paused := d.paused.getD o.paused, sleeping := d.touch,
+                                        seen := if benignView u s i o.prio view then some (s.ver, s.now) else none } }
       else none
     | none => none
   | .tick d => some { s with now := s.now + d }
@@ -389,10 +425,6 @@ inductive Reachable (u : Int) : State → Prop where
 def Blocks (u : Int) (now : Int) (me : Identity) (myPrio : Int) (q : Peer) : Prop :=
   q.id ≠ me ∧ q.isDead u now = false ∧ ∃ x, q.prio = some x ∧ x ≥ myPrio
 
-/-- the same over a well-formed status, as a Bool: somebody else's live record of priority ≥ `p` is in `st` at clock `t`. -/
-def blockedB (u : Int) (st : Status) (i : Identity) (p : Int) (t : Int) : Bool :=
-  st.any (fun e => e.1 != i && !e.2.dead u t && decide (e.2.priority ≥ p))
-
 /-- "The operators see each other": every running operator has a fresh record carrying its priority; every fresh
     record belongs to a running operator (no live ghosts of killed/foreign processes); running priorities are distinct. -/
 structure Good (u : Int) (s : State) : Prop where
@@ -421,6 +453,7 @@ def Allowed (u B : Int) (s : State) : Label → Prop
   | .expire j => ∀ i o k, s.ops i = some o → o.alive = true → o.nextKA = some k →
       latestDeadline u s.status j s.now ≤ k + B
   | .deliverStale _ _ => False
+  | .exitBegin _ => False          -- timely runs exit in the proper order (`exit`)
   | .foreign j _ => s.ops j = none
   | _ => True
 
